@@ -45,6 +45,13 @@ def jobs_for(tier, rng):
         m = gen.corridors(rng, N, [3, 2])
         jobs.append({"mdp": m, "kind": "SAVI", "gamma": [1, 2], "eps": [1, 2], "test": "span", "calls": [2],
                      "mbs": rng.choice([65536, 40000]), "shuffle": True, "seed": 5 + k, "tag": f"savi-corridors{N}", "min_sweeps": 2})
+    # many thousands of batches on one device (each batch reads what ALL earlier batches of the sweep wrote)
+    for k, (N, mbs) in enumerate([(8300, 1)] if tier == "quick" else [(8300, 1), (17000, 2), (70000, 8)]):
+        # a chain that steps DOWN across batch number 8192 (and 4096, 16384 ...): late batches read early ones
+        edge = 8192 * mbs
+        m = gen.descending_chain(rng, N, min(N - 1, edge + 6), edge - 7)
+        jobs.append({"mdp": m, "kind": "SAVI", "gamma": [1, 2], "eps": [1, 2], "test": "span", "calls": [3],
+                     "mbs": mbs, "shuffle": k % 2 == 1, "seed": 11 + k, "tag": f"savi-manybatches{N}", "min_sweeps": 2})
     # beyond the default iteration limit (2000): integer-valued undiscounted rings never leave the 32-bit range
     for k in range(1 if tier == "quick" else 3):
         m = gen.ring(rng, rng.randint(3, 5), extra=rng.randint(3, 4), v0max=1, rmax=2)
